@@ -310,6 +310,7 @@ func positive(s sink.Sink, em *childrun.Emitter, rng *rand.Rand, sample bool) {
 	}
 	em.Progress("positive " + kind)
 	w := party.NewWorld(rng, 1+rng.Intn(3), rng.Intn(5))
+	w.MultiWire = rng.Intn(3) == 0
 	defer w.Close()
 	A, B := w.NewParty("A", 100000), w.NewParty("B", 100000)
 	report := func(prop client.ChannelProposal, problems []string) {
@@ -681,6 +682,36 @@ var mutators = []mutator{
 		ledgerBase(p).Peers[0] = a.S.Wire
 		return true
 	}},
+	{"peer-entry-is-an-empty-address-map", "ledger", func(rng *rand.Rand, a *arena, p client.ChannelProposal) bool {
+		ledgerBase(p).Peers[rng.Intn(2)] = map[wallet.BackendID]wire.Address{}
+		return true
+	}},
+	{"both-peer-entries-are-empty-address-maps", "ledger", func(rng *rand.Rand, a *arena, p client.ChannelProposal) bool {
+		l := ledgerBase(p)
+		l.Peers[0], l.Peers[1] = map[wallet.BackendID]wire.Address{}, map[wallet.BackendID]wire.Address{}
+		return true
+	}},
+	{"peer-entry-lacks-one-of-the-peer's-addresses", "ledger", func(rng *rand.Rand, a *arena, p client.ChannelProposal) bool {
+		l := ledgerBase(p)
+		i := rng.Intn(2)
+		if len(l.Peers[i]) < 2 {
+			i = 1 - i
+		}
+		if len(l.Peers[i]) < 2 {
+			return false
+		}
+		m := map[wallet.BackendID]wire.Address{}
+		skip := true
+		for k, v := range l.Peers[i] {
+			if skip {
+				skip = false
+				continue
+			}
+			m[k] = v
+		}
+		l.Peers[i] = m
+		return true
+	}},
 	{"three-peers", "ledger", func(rng *rand.Rand, a *arena, p client.ChannelProposal) bool {
 		l := ledgerBase(p)
 		l.Peers = append(l.Peers, a.S.Wire)
@@ -837,6 +868,7 @@ var mutators = []mutator{
 func newArena(rng *rand.Rand) (*arena, string) {
 	a := &arena{}
 	a.w = party.NewWorld(rng, 1+rng.Intn(2), rng.Intn(3))
+	a.w.MultiWire = rng.Intn(3) == 0
 	a.V, a.M, a.S, a.I = a.w.NewParty("V", 100000), a.w.NewParty("M", 100000), a.w.NewParty("S", 100000), a.w.NewParty("I", 100000)
 	pp := ledgerProposal(rng, a.w, a.M, a.V, true)
 	for i := range pp.InitBals.Balances {
